@@ -290,6 +290,46 @@ def dtype_dependent_callable_case():
   return fn
 
 
+def index_layout_case():
+  """NOT solver-decided (memory layout and dtype promotion are C-level): index arrays in Fortran order, as transposed or strided views
+  address the same records as their C-contiguous copy; a preprocessor array of a narrow / unsigned integer dtype gives the distances of
+  the same numbers in float64 (the difference of two records must not wrap around)"""
+  def fn(ctx):
+    rs = np.random.RandomState(12)
+    Xf = rs.randint(0, 200, size=(9, 3)).astype(float)
+    L = rs.randn(2, 3)
+    for est_name, t in (('ITML', 2), ('SCML', 3), ('LSML', 4)):
+      cls = mahal.classes()[est_name]
+      base = np.array([rs.choice(9, t, replace=False) for _ in range(6)])
+      wide = np.zeros((6, 2 * t), dtype=base.dtype)
+      wide[:, ::2] = base
+      layouts = (('fortran', np.asfortranarray(base)), ('transposed_view', np.ascontiguousarray(base.T).T), ('strided_view', wide[:, ::2]),
+                 ('stacked_columns', np.vstack([base[:, j] for j in range(t)]).T))
+      for lay, idx in layouts:
+        for pk, prep in (('array', Xf), ('list', Xf.tolist()), ('callable', lambda ind: Xf[np.asarray(ind, dtype=int)])):
+          est = cls(preprocessor=prep)
+          got = est._prepare_inputs(idx, type_of_inputs='tuples')
+          ctx.require('tuples_formed_like_X_index_for_every_index_layout', ctx.cond(np.array_equal(np.asarray(got, float), Xf[base])),
+                      detail='%s %s %s' % (est_name, lay, pk))
+        if t == 2:
+          fitted = mahal.fitted(est_name, L, preprocessor=Xf)
+          ctx.require('distances_on_indices_equal_distances_on_formed_pairs_for_every_index_layout',
+                      ctx.cond(np.array_equal(fitted.pair_distance(idx), mahal.fitted(est_name, L).pair_distance(Xf[base]))), detail=lay)
+    # integer-dtype records behind the indices
+    idx2 = np.array([[0, 1], [1, 0], [3, 7], [8, 2], [4, 4], [5, 6]])
+    want = mahal.fitted('ITML', L).pair_distance(Xf[idx2])
+    for dt in (np.uint8, np.int16, np.uint16, np.uint32, np.int64, np.uint64):
+      Xi = Xf.astype(dt)
+      for pk, prep in (('array', Xi), ('callable', lambda ind, Xi=Xi: Xi[np.asarray(ind, dtype=int)])):
+        est = mahal.fitted('ITML', L, preprocessor=prep)
+        got = est.pair_distance(idx2)
+        f = est.get_metric()
+        ctx.require('integer_records_behind_indices_give_the_float_distances_%s' % pk,
+                    ctx.cond(np.allclose(got, want, rtol=1e-12, atol=1e-12) and np.allclose(est.pair_score(idx2), -want, rtol=1e-12, atol=1e-12)),
+                    detail=np.dtype(dt).name)
+  return fn
+
+
 def cases(tier, seed):
   out = [case('ast_fit_reads_validated_data', ast_case(), FUNCS, 'source of every fit/_fit of the 17 estimators', validate=1)]
   names = ('_prepare_inputs', '_check_preprocessor')
@@ -326,6 +366,9 @@ def cases(tier, seed):
                     ['%s.fit (concrete differential run)' % name],
                     'one fixed dataset, indices + {array, list, callable} preprocessor vs formed data (sampled, not solver-decided)',
                     concrete_only=True, validate=1, cost=3))
+  out.append(case('index_layouts_and_integer_records', index_layout_case(), FUNCS,
+                  'index arrays in Fortran order / transposed / strided / column-stacked for tuple sizes 2, 3, 4 and three preprocessor kinds; preprocessor '
+                  'arrays of dtype uint8..uint64 (concrete, sampled; not solver-decided)', concrete_only=True, validate=1, cost=2))
   return out
 
 
